@@ -555,7 +555,8 @@ class G_Debug(TG):
             if ctx.want_fault and ctx.fault is None and r.random() < 0.25:
                 k = pick(r, DBG_UNION_FAULTS)
                 ctx.fault = 'dbg:union_%s' % k
-                t = {'no_unsafe': pick(r, ['Debug', 'Debug()', 'Debug(name = A)', 'Debug(name(false))', 'Debug(name = 1)']),
+                t = {'no_unsafe': pick(r, ['Debug', 'Debug()', 'Debug(name = A)', 'Debug(name(false))', 'Debug(name = 1)',
+                                           'Debug = A', 'Debug = "A"', 'Debug = false', 'Debug = true', 'Debug = 1', 'Debug( )', 'Debug(,)']),
                      'unsafe_late': pick(r, ['Debug(name = A, unsafe)', 'Debug(name = false, unsafe,)']),
                      'unsafe_nocomma': pick(r, ['Debug(unsafe name = A)', 'Debug(unsafe unsafe)']),
                      'unsafe_twice': 'Debug(unsafe, unsafe)',
@@ -1558,7 +1559,7 @@ class G_Into(FieldPicking):
         # reserve the case's one invalid construct early (before the generic apply_fault runs);
         # the metas themselves are added by `post`, when the field types are known
         if ctx.want_fault and ctx.fault is None and ctx.kind != 'union' and r.random() < 0.5:
-            k = pick(r, ['multi', 'no_field', 'no_field2', 'mixed', 'mixed', 'no_impl', 'reset_type', 'reset_field',
+            k = pick(r, ['multi', 'no_field', 'no_field2', 'mixed', 'mixed', 'no_impl', 'no_impl', 'reset_type', 'reset_field',
                          'form_type', 'form_type', 'form_field', 'form_field', 'variant'])
             ctx.notes['into_fault'] = k
             ctx.fault = 'Into_' + k
@@ -1643,6 +1644,18 @@ class G_Into(FieldPicking):
         for off, (pos, g) in enumerate(zip(positions, groups)):
             text = ', '.join(g) + (',' if sp.random() < 0.1 else '')
             inp.attrs.insert(pos + off, educe(text))
+        # ... and quite often a list of targets shares its #[educe(...)] with the neighbouring traits
+        for _ in range(2):
+            idx = [i for i in range(len(inp.attrs) - 1)
+                   if all(a.path == 'educe' and a.kind == 'list' and a.delim == '(' and a.args.strip() for a in inp.attrs[i:i + 2])
+                   and any(a.args.lstrip().startswith('Into') for a in inp.attrs[i:i + 2])]
+            if idx and sp.random() < 0.5:
+                i = pick(sp, idx)
+                a, b = inp.attrs[i], inp.attrs[i + 1]
+                a.args = a.args.rstrip().rstrip(',').rstrip() + ', ' + b.args
+                if hasattr(a, 'metas'):
+                    del a.metas
+                del inp.attrs[i + 1]
         # ---- fields
         faulted = False
         for v, fs in containers:
@@ -1695,8 +1708,13 @@ class G_Into(FieldPicking):
         all_fields = [f for _, fs in containers for f in fs]
         if fault == 'no_impl' and all_fields:
             f = pick(r, all_fields)
-            x = pick(r, [p for p in pool if norm_type(p) not in [norm_type(t) for t in targets]])
-            add_meta(ctx, f.attrs, self.field_into(ctx, x, r.random() < 0.3))
+            und, seen_keys = [], set(norm_type(t) for t in targets)
+            for p in r.sample(pool, len(pool)):
+                if norm_type(p) not in seen_keys:
+                    seen_keys.add(norm_type(p)); und.append(p)
+            # one or several undeclared targets on the same field (which one the message names must not vary)
+            for x in und[:pick(r, [1, 2, 2, 3])]:
+                add_meta(ctx, f.attrs, self.field_into(ctx, x, r.random() < 0.3))
             applied = True
             reach(ctx, 'Into', 'fault', 'no_impl')
         elif fault == 'reset_field' and all_fields:
@@ -1764,8 +1782,9 @@ def assemble(ctx, metas, extra_attrs=False):
         it = iter(into_sorted)
         metas = [next(it) if m.lstrip().startswith('Into') else m for m in metas]
         groups = []
+        join_p = 1.0 if sp.random() < 0.3 else 0.6      # quite often everything sits in ONE #[educe(...)] list
         for m in metas:
-            if groups and sp.random() < 0.6:
+            if groups and sp.random() < join_p:
                 groups[-1].append(m)
             else:
                 groups.append([m])
